@@ -125,6 +125,9 @@ class Env:
     def modname(self, m: str) -> str:
         return f"verif_{self.uid}_{m}"
 
+    def filename(self, m: str) -> str:
+        return f"/verif-generated/{self.modname(m)}.py"
+
     def render(self, t: dict, home: str) -> str:
         """Source text of a type term as seen from module `home`."""
         k = t["k"]
@@ -331,7 +334,9 @@ class Env:
         for m in mods:
             if self.probe is not None:
                 self.modules[m].__dict__["__verif_probe__"] = self.probe
-            exec(compile(self.sources[m], f"<{self.modname(m)}>", "exec", dont_inherit=True), self.modules[m].__dict__)
+            # (the module looks file-backed, so that inspect.getmodule() maps a frame of its code to it, as for user modules)
+            self.modules[m].__file__ = self.filename(m)
+            exec(compile(self.sources[m], self.filename(m), "exec", dont_inherit=True), self.modules[m].__dict__)
         self._built = True
         self.root_home = root_home
         return self.modules[root_home].__dict__.get("ROOT") if root is not None else None
